@@ -240,6 +240,21 @@ func (x *Exec) rootedAt(e ast.Expr, o types.Object) bool {
 }
 
 func (x *Exec) havocLoop(st *State, lc *LoopContract, ord int, pos token.Pos, nodes ...ast.Node) {
+	before := st.heaps["H_Slice"]
+	x.havocLoop0(st, lc, ord, pos, nodes...)
+	if h := st.heaps["H_Slice"]; h != nil && h != before {
+		// Every slice header stored in the heap is a well-formed header
+		// whose region was allocated before now: true in every reachable
+		// state (headers are valid when stored, the counter only grows),
+		// and needed for headers the invariants quantify over.
+		r := BoundVar{Name: x.freshBound("r"), Sort: SInt}
+		i := BoundVar{Name: x.freshBound("i"), Sort: SInt}
+		cell := Select(Select(h, mk(r.Name, SInt)), mk(i.Name, SInt))
+		st.assume(Forall([]BoundVar{r, i}, wfSlice(cell, st.alloc), cell))
+	}
+}
+
+func (x *Exec) havocLoop0(st *State, lc *LoopContract, ord int, pos token.Pos, nodes ...ast.Node) {
 	x.fieldAsg = nil
 	asg := x.assignedIn(nodes...)
 	fieldAsg := x.fieldAsg
